@@ -10,7 +10,7 @@ Variable d : nat.
 
 Definition model_F2 (thr : T) (evs : list (list T)) (Vs : list (Mat (T:=T))) (om : list T)
            (bs ns : list (Mat (T:=T))) (nc : list (list T)) (dts : list T) : Arr5 (T:=T) :=
-  second_order_ff Op d thr evs Vs (propagators Op d evs Vs dts) om bs ns nc dts (times Op dts) (None, None).
+  second_order_from_eig Op d thr evs Vs om bs ns nc dts.
 
 Definition flat5 {A} (x : list (list (list (list (list A))))) : list A := concat (concat (concat (concat x))).
 
